@@ -201,6 +201,10 @@ def _oplike_between_dots(e):
 
 def check_expr(e, text, context="expr"):
     """Returns violation dict or None."""
+    from .. import monitors as _m
+
+    if _m.NewMonitor.installed is not None:
+        _m.NewMonitor.installed.reset()      # the step budget bounds one expression, not the 60 of a case
     exp = to_strict(paren_of(e)).lower()
     known = has_defbin_with_dotted_right(e) or text_has_defbin_dotted_right(text)
     oplike = _oplike_between_dots(e)
